@@ -151,6 +151,7 @@ pub struct ApiStats {
     pub mandatory_failures: u64,
     pub rollback_after_type_error: u64,
     pub rollback_after_size_limit: u64,
+    pub rollback_after_total_size_limit: u64,
     pub twin_checks: u64,
     pub contexts_finalized: u64,
     pub graphs_finalized: u64,
@@ -529,6 +530,9 @@ fn step(w: &mut World, idx: usize, c: &ACall, st: &mut ApiStats) -> Option<(Stri
             st.failed += 1;
             if e.contains("MAX_INDIVIDUAL_NODE_SIZE") || e.contains("MAX_TOTAL_SIZE_NODES") || e.contains("invalid size") {
                 st.rollback_after_size_limit += 1;
+                if e.contains("MAX_TOTAL_SIZE_NODES") {
+                    st.rollback_after_total_size_limit += 1;
+                }
             } else if matches!(c, ACall::AddNode { .. }) && mf.is_none() {
                 st.rollback_after_type_error += 1;
             }
@@ -644,7 +648,7 @@ fn big_type(rng: &mut Rng) -> Type {
     }
 }
 
-fn gen_call(w: &World, rng: &mut Rng, idx: usize, st: &mut ApiStats, fuzzing: bool) -> ACall {
+fn gen_call(w: &World, rng: &mut Rng, idx: usize, st: &mut ApiStats, fuzzing: bool, hungry: bool) -> ACall {
     let nctx = w.ctxs.len();
     let graphs: Vec<usize> = w.graphs.keys().cloned().collect();
     let nodes: Vec<usize> = w.nodes.keys().cloned().collect();
@@ -679,9 +683,23 @@ fn gen_call(w: &World, rng: &mut Rng, idx: usize, st: &mut ApiStats, fuzzing: bo
     match rng.below(20) {
         0..=9 => {
             // add a node
-            let k = rng.below(16);
+            let mut k = rng.below(16);
             let ty_of = |h: usize| w.nodes[&h].1.get_type().ok();
+            if hungry && k >= 10 {
+                // size-hungry history: most new nodes are inputs of just-allowed size, so that the context-wide budget
+                // (MAX_TOTAL_SIZE_NODES of the fuzzing build) runs out and later inputs are rejected by the total
+                // accounting, not by the per-node limit
+                k = 0;
+            }
             match k {
+                0 | 1 if hungry => {
+                    let t = match rng.below(4) {
+                        0 => small_type(rng),
+                        1 => array_type(vec![900], BIT),
+                        _ => array_type(vec![15], UINT64),
+                    };
+                    ACall::AddNode { graph: g, op: Operation::Input(t), deps: vec![], gdeps: vec![] }
+                }
                 0 | 1 => {
                     let t = if fuzzing && rng.chance(1, 3) { big_type(rng) } else { small_type(rng) };
                     ACall::AddNode { graph: g, op: Operation::Input(t), deps: vec![], gdeps: vec![] }
@@ -805,8 +823,13 @@ pub fn gen_and_run(rng: &mut Rng, fuzzing: bool, st: &mut ApiStats) -> (ApiHisto
     let n = 20 + rng.usize_below(100);
     let mut w = World::new(contexts);
     let mut calls = vec![];
+    // one history in five of the limits-reachable configuration is size-hungry (coin from a copy of the stream)
+    let hungry = fuzzing && {
+        let mut r2 = rng.clone();
+        r2.below(5) == 0
+    };
     for idx in 0..n {
-        let c = gen_call(&w, rng, idx, st, fuzzing);
+        let c = gen_call(&w, rng, idx, st, fuzzing, hungry);
         calls.push(c.clone());
         if let Some((class, detail)) = step(&mut w, idx, &c, st) {
             return (ApiHistory { contexts, clients, calls }, Some((idx, class, detail)));
@@ -902,7 +925,7 @@ pub fn gen_and_run(rng: &mut Rng, fuzzing: bool, st: &mut ApiStats) -> (ApiHisto
         }
     }
     for _ in 0..12 {
-        let c = gen_call(&w, rng, idx, st, fuzzing);
+        let c = gen_call(&w, rng, idx, st, fuzzing, false);
         calls.push(c.clone());
         if let Some((class, detail)) = step(&mut w, idx, &c, st) {
             return (ApiHistory { contexts, clients, calls }, Some((idx, class, detail)));
@@ -1019,6 +1042,7 @@ pub fn run_c11(args: &Args) -> i32 {
         tot.retries_after_failure += s.retries_after_failure;
         tot.rollback_after_type_error += s.rollback_after_type_error;
         tot.rollback_after_size_limit += s.rollback_after_size_limit;
+        tot.rollback_after_total_size_limit += s.rollback_after_total_size_limit;
         tot.twin_checks += s.twin_checks;
         tot.contexts_finalized += s.contexts_finalized;
         tot.graphs_finalized += s.graphs_finalized;
@@ -1076,6 +1100,7 @@ pub fn run_c11(args: &Args) -> i32 {
                 "api-fail:rejected-call-repeated-at-once(must be rejected again)": tot.retries_after_failure,
                 "api-fail:type-error-rollback": tot.rollback_after_type_error,
                 "api-fail:size-limit-rollback(post type registration)": tot.rollback_after_size_limit,
+                "api-fail:total-size-budget-rollback": tot.rollback_after_total_size_limit,
                 "argument-from-sibling-graph": tot.cross_graph_args,
                 "argument-from-other-context": tot.cross_context_args
             },
